@@ -191,17 +191,39 @@ def _set(lst):
     return Raw("{" + ", ".join(tlaval.to_tla(x) for x in lst) + "}")
 
 
-def constants(b, first=None, records=None):
+def _dedupe(lst):
+    seen, out = set(), []
+    for x in lst:
+        k = json.dumps(x, sort_keys=True)
+        if k not in seen:
+            seen.add(k)
+            out.append(x)
+    return out
+
+
+def constants(b, first=None, records=None, nrecords=0):
+    """`first`: 1-based shape indices of the first task (None: the whole bound)"""
+    sh = shapes_of(b)
+    pools = _dedupe(b["PoolSeqs"])
+    assert len(pools) == len(b["PoolSeqs"]) and len(_dedupe(sh)) == len(sh), "bound lists must not repeat"
     return {
         "Kinds": _set(b["Kinds"]),
         "Now": b["Now"],
         "MaxTasks": b["MaxTasks"],
-        "KeyProfiles": _set(b["KeyProfiles"]),
-        "StratLists": _set(b["StratLists"]),
-        "PoolSeqs": _set(b["PoolSeqs"]),
-        "FirstShapes": Raw("TaskShapes") if first is None else _set(first),
+        "Shapes": sh,
+        "PoolSeqs": pools,
+        "NShapes": len(sh),
+        "NPools": len(pools),
+        "GraphOf": [x["graph"] for x in sh],
+        "FirstIx": _set(list(range(1, len(sh) + 1)) if first is None else list(first)),
         "Records": Raw(records) if records else [],
+        "NRecords": nrecords,
     }
+
+
+def instance_of(b, sel, pix):
+    sh = shapes_of(b)
+    return {"now": b["Now"], "tasks": [sh[i - 1] for i in sel], "pools": b["PoolSeqs"][pix - 1]}
 
 
 @contextlib.contextmanager
@@ -216,12 +238,12 @@ def _tmp_in(scratch):
         tempfile.tempdir = old
 
 
-NO_BOUND = dict(Kinds=list(KINDS), Now=0, MaxTasks=1, KeyProfiles=[], StratLists=[], PoolSeqs=[])
+NO_BOUND = dict(Kinds=list(KINDS), Now=0, MaxTasks=1, KeyProfiles=[], StratLists=[], PoolSeqs=[])  # records that claim no bound
 
 # ---------------------------------------------------------------------------
 # M: enumeration runs
 
-REG_INIT = "ASSUME \\A r \\in 1..(NStats + 1) : TLCSet(r, 0)\nPost == StatsLine\n"
+REG_INIT = "ASSUME \\A r \\in 1..(NStats + 1) : TLCSet(r, 0)\nASSUME BoundOK\nPost == StatsLine\n"
 
 
 def _stats_from(out: str):
@@ -243,10 +265,14 @@ def _enum_job(tag, b, first, invariants, allow_violation=False):
         )
         with _tmp_in(scratch):
             r = tlc.run_tlc(mod, cf, workers=1, java_opts=mcgen.LIB_OPT, timeout=7200)
+    cex = None
+    if not r.ok and r.trace and "sel" in r.trace[0][1]:
+        st = r.trace[0][1]
+        cex = {"kind": st["kind"], "inst": instance_of(b, st["sel"], st["pix"])}
     return {
         "tag": tag, "ok": r.ok, "distinct": r.distinct, "generated": r.generated, "wall_s": r.wall_s,
         "coverage": r.coverage, "stats": _stats_from(r.stdout), "violation": r.violation_name,
-        "trace": [s for _, s in r.trace], "tail": "" if r.ok else r.stdout[-1500:],
+        "cex": cex, "tail": "" if r.ok else r.stdout[-1500:],
     }
 
 
@@ -264,7 +290,7 @@ def _chunks(lst, n):
 def run_enumeration(res, bounds, parts_for, invariants, label, procs):
     jobs = []
     for tag, b in bounds.items():
-        for ci, first in enumerate(_chunks(shapes_of(b), parts_for(tag, b))):
+        for ci, first in enumerate(_chunks(list(range(1, len(shapes_of(b)) + 1)), parts_for(tag, b))):
             jobs.append((f"{tag}/{ci}", b, first, invariants))
     outs = parallel(_enum_job, jobs, procs=procs)
     by_slice = {}
@@ -291,12 +317,10 @@ def run_enumeration(res, bounds, parts_for, invariants, label, procs):
         counts[tag] = agg.distinct
         for p in parts:
             if not p["ok"]:
-                inst = p["trace"][0].get("inst") if p["trace"] else None
-                kind = p["trace"][0].get("kind") if p["trace"] else None
                 res.violate(
                     GATING,
                     f"TLC: {p['violation']} fails for the specified algorithm on an instance of bound {label}/{tag}",
-                    {"kind": kind, "inst": inst, "tlc_tail": p["tail"]},
+                    {**(p["cex"] or {}), "tlc_tail": p["tail"]},
                     key=f"spec:{label}/{tag}:{p['violation']}",
                 )
     return counts
@@ -471,7 +495,7 @@ def check_records(recs, b):
         with open(path, "w") as f:
             json.dump([{k: v for k, v in r.items() if not k.startswith("_")} for r in recs], f)
         mod, cf = mcgen.write_mc(
-            scratch, "Greedy", constants(b, None, f'JsonDeserialize("{path}")'), name="MC_GreedyRec",
+            scratch, "Greedy", constants(b, None, f'JsonDeserialize("{path}")', len(recs)), name="MC_GreedyRec",
             init_next=("RecInit", "NoNext"), invariants=["RecChecked"], extra_defs=REG_INIT,
             postcondition="Post", extends="Json",
         )
@@ -693,8 +717,8 @@ def explore(res, tier, procs):
     found = []
     for o in outs:
         entry = {"run": o["tag"], "instances": o["distinct"], "holds": o["ok"]}
-        if not o["ok"] and o["trace"]:
-            inst = _plain(o["trace"][0]["inst"])
+        if not o["ok"] and o["cex"]:
+            inst = _plain(o["cex"]["inst"])
             entry["tlc_counterexample"] = inst
             # confirm on the real scheduler: the real answer must be the coded plan and must fail the clause
             recs, _ = make_records([("LSF", inst, False)], 0)
